@@ -155,6 +155,7 @@ type FuncEnc struct {
 	props     []string
 	bvOffsets map[string]bvOffset
 	consts    map[string]bool
+	entryMeasure []Term
 	defAt     map[string]int
 	usedIn    map[string][]int
 	trigIn    map[string][]int
@@ -261,7 +262,7 @@ func (fe *FuncEnc) setComp(st *State, name string, t Term) {
 // obligations
 
 func (fe *FuncEnc) emit(kind, label string, path, goal Term, clause string, pos token.Pos) {
-	if kind == "globalinv" || kind == "post" || kind == "inv.step" || kind == "inv.entry" || kind == "pre" || kind == "lemma" {
+	if kind == "typeinv" || kind == "cell" || kind == "globalinv" || kind == "post" || kind == "inv.step" || kind == "inv.entry" || kind == "pre" || kind == "lemma" {
 		if parts := splitGoal(goal.S, 16); len(parts) > 1 {
 			for i, p := range parts {
 				fe.emit1(kind, fmt.Sprintf("%s.%d", label, i+1), path, Term{p, SBool}, clause, pos)
@@ -482,7 +483,11 @@ func (fe *FuncEnc) wf(x Term, t types.Type, st *State) Term {
 		aObj := fe.comp(st, "A_M_Str_Val", arrSort(SInt, SBool))
 		extra := ""
 		for _, dt := range fe.eng.dynTypes {
-			if n, _, ok := fe.structOfPointer(dt); ok && n.Obj().Pkg().Name() == "interpreter" {
+			wantPkg := "interpreter"
+			if fe.fn != nil && fe.fn.Pkg != nil && fe.fn.Pkg.Pkg.Name() == "parser" {
+				wantPkg = "ast"
+			}
+			if n, _, ok := fe.structOfPointer(dt); ok && n.Obj().Pkg().Name() == wantPkg {
 				a := fe.comp(st, "A_H_"+sanitize(fe.eng.sorts.shortTypeName(n)), arrSort(SInt, SBool))
 				extra += fmt.Sprintf(" (=> (and ((_ is VPtr) %s) (= (vptag %s) %d) (> (vpref %s) 0)) (select %s (vpref %s)))", x.S, x.S, fe.eng.sorts.tagOf(dt), x.S, a.S, x.S)
 			}
